@@ -104,9 +104,13 @@ mod kani_harness {
 		let a = blk_at(ZA);
 		let b = blk_at(ZB);
 		kani::assume(!(ZA == ZB && a.bx == b.bx && a.by == b.by));
+		// byte ranges of the two blocks: anywhere in the file, in any order, possibly shared (the layout does not forbid an
+		// encoder that stores identical blocks once)
+		let (oa, ta, ia): (u32, u32, u16) = (kani::any(), kani::any(), kani::any());
+		let (ob, tb, ib): (u32, u32, u16) = (kani::any(), kani::any(), kani::any());
 		let mut bytes = Vec::with_capacity(66);
-		encode_block(&mut bytes, a.z, a.bx, a.by, a.local, 66, 100, 10);
-		encode_block(&mut bytes, b.z, b.bx, b.by, b.local, 176, 50, 5);
+		encode_block(&mut bytes, a.z, a.bx, a.by, a.local, oa as u64, ta as u64, ia as u32);
+		encode_block(&mut bytes, b.z, b.bx, b.by, b.local, ob as u64, tb as u64, ib as u32);
 		let idx = ok(BlockIndex::from_blob(Blob::from(bytes)));
 		assert!(idx.is_some(), "a valid sparse block index is rejected");
 		let idx = idx.unwrap();
@@ -115,10 +119,11 @@ mod kani_harness {
 		let ba = idx.get_block(&ka);
 		assert!(ba.is_some(), "encoded block not found");
 		let ba = ba.unwrap();
-		assert!(ba.get_tiles_range().offset == 66 && ba.get_tiles_range().length == 100 && ba.get_index_range().offset == 166 && ba.get_index_range().length == 10);
+		assert!(ba.get_tiles_range().offset == oa as u64 && ba.get_tiles_range().length == ta as u64 && ba.get_index_range().offset == oa as u64 + ta as u64 && ba.get_index_range().length == ia as u64);
 		let g = ba.get_global_bbox();
 		assert!(g.level == a.z && g.x_min == a.bx * 256 + a.local[0] as u32 && g.x_max == a.bx * 256 + a.local[2] as u32);
 		assert!(g.y_min == a.by * 256 + a.local[1] as u32 && g.y_max == a.by * 256 + a.local[3] as u32);
+		kani::cover!(oa == ob && ta == tb, "two block definitions sharing their bytes");
 		if COVERAGE {
 			let pyr = idx.get_bbox_pyramid();
 			let (px, py): (u32, u32) = (kani::any(), kani::any());
